@@ -10,8 +10,8 @@ from vf import core
 ID = "C15"
 LEVEL = "exploration"
 SHARDS = {"quick": 1, "thorough": 1}
-RULE = ("(1) complete matrix, evaluated inside 9 worker interpreters {python, python -O, python -OO} x ICONTRACT_SLOW "
-        "{unset, '', '1'}: decorator {require, ensure, snapshot, invariant} x enabled {default, True, False, "
+RULE = ("(1) complete matrix, evaluated inside 21 worker interpreters {python, python -O, python -OO} x ICONTRACT_SLOW "
+        "{unset, '', '1', '0', 'false', ' ', 'no'}: decorator {require, ensure, snapshot, invariant} x enabled {default, True, False, "
         "icontract.SLOW} x callable kind {function, async function, method, staticmethod, classmethod, property getter; "
         "plain class / DBC class for invariant}. Oracle = expected-enabled table written from the statement: not "
         "enabled => the decorator returns the very object it was given, vars() of it are unchanged, the condition / "
@@ -29,7 +29,8 @@ ENABLED = ["default", "True", "False", "SLOW"]
 KINDS = ["function", "async", "method", "staticmethod", "classmethod", "getter"]
 INV_KINDS = ["plain-class", "dbc-class"]
 MODES = [("normal", []), ("-O", ["-O"]), ("-OO", ["-OO"])]
-SLOWS = [("unset", None), ("empty", ""), ("set", "1")]
+# "non-empty string" is the documented switch: strings that spell false, zero or blank are non-empty too
+SLOWS = [("unset", None), ("empty", ""), ("set", "1"), ("zero", "0"), ("false", "false"), ("blank", " "), ("word", "no")]
 
 
 BASES = ["bare", "contracted", "foreign-over-contracted"]
@@ -320,7 +321,7 @@ def run(ctx, tier, seed, shard, nshards):
     payload = json.dumps({"cells": all_cells, "programs": [[p, o, {str(k): v for k, v in t.items()}] for p, o, t in programs]})
     import concurrent.futures
 
-    with concurrent.futures.ThreadPoolExecutor(max_workers=9) as ex:
+    with concurrent.futures.ThreadPoolExecutor(max_workers=16) as ex:
         futs = {}
         for (mname, flags), (sname, slow) in itertools.product(MODES, SLOWS):
             # programs only need one ICONTRACT_SLOW setting per interpreter mode
@@ -332,7 +333,7 @@ def run(ctx, tier, seed, shard, nshards):
     for (mname, sname, slow), res in results.items():
         for (d, e, k, bs), obs in zip(all_cells, res["cells"]):
             case = {"cell": [d, e, k, bs], "mode": mname, "slow": sname}
-            ctx.case(case, mname != "normal" or sname == "set", sample=dict(case, observed=obs))
+            ctx.case(case, mname != "normal" or sname not in ("unset", "empty"), sample=dict(case, observed=obs))
             ctx.count("interpreter:" + mname)
             if "error" in obs:
                 ctx.fail("cell-error|%s|%s|%s" % (d, e, k), case, "cell raised inside the worker: %s" % obs["error"])
@@ -365,7 +366,7 @@ def run(ctx, tier, seed, shard, nshards):
                 if bad:
                     ctx.fail("enabled-not-enforced|" + tag, case, "expected ENABLED (%s): %s" % (tag, "; ".join(bad)))
     ctx.exhaustive = True
-    ctx.extra["exhaustive_scope"] = "decorator x enabled x kind x interpreter x ICONTRACT_SLOW matrix (%d cells x 9 workers)" % len(all_cells)
+    ctx.extra["exhaustive_scope"] = "decorator x enabled x kind x interpreter x ICONTRACT_SLOW matrix (%d cells x %d workers)" % (len(all_cells), len(MODES) * len(SLOWS))
     # (2) programs across interpreter modes
     base = results[("normal", "unset", None)]["programs"]
     for idx, (p, ops, truth) in enumerate(programs):
